@@ -30,6 +30,11 @@ check("C08", "property test (weighted alphabet + corpus mutation + lexeme-built 
       "Columns are counted in characters. `\\x` escapes are only generated where the lexer documents them (single-line literal before an interpolation). Hangs are judged by the 60 s watchdog + two fresh re-runs.",
       "DESIGN.md §3 C08")
 
+check("C09", "property test (token soup, corpus mutation, nesting ladders) in crash-isolated workers with watchdog",
+      "Token soup over an Erg lexeme alphabet, corpus programs truncated/spliced at random points and arbitrary text are parsed and desugared in worker processes on the product's 8 MB stack: no panic, abort or hang, Ok or Err with >=1 error. Nesting ladders for 16 shapes at depths 1..3000: bracket/block nesting <=200 (blocks <=100) must parse cleanly, deeper bracket nesting must be a diagnostic, nothing may kill the process.",
+      "Asked of the optimised build (debug frames are several times larger). A worker death is confirmed in a fresh process before it is reported; hangs by the 60 s watchdog + two fresh re-runs at 240 s.",
+      "DESIGN.md §3 C09")
+
 NOT_APPLICABLE = {}
 
 def main():
